@@ -1109,8 +1109,16 @@ impl<'a> Visitor<'a, Result<Expr>> for TryIntoExprVisitor<'a> {
                 };
                 Expr::unix_timestamp(arg)
             }
-            "greatest" => Expr::greatest(flat_args[0].clone(), flat_args[1].clone()),
-            "least" => Expr::least(flat_args[0].clone(), flat_args[1].clone()),
+            "greatest" => {
+                let (first, vec) = flat_args.split_first().unwrap();
+                vec.iter()
+                    .fold(first.clone(), |acc, x| Expr::greatest(acc, x.clone()))
+            }
+            "least" => {
+                let (first, vec) = flat_args.split_first().unwrap();
+                vec.iter()
+                    .fold(first.clone(), |acc, x| Expr::least(acc, x.clone()))
+            }
             // Aggregates
             "min" => Expr::min(flat_args[0].clone()),
             "max" => Expr::max(flat_args[0].clone()),
